@@ -144,11 +144,14 @@ def write_evidence(prop_id, data):
     d = os.environ.get('VERIF_EVIDENCE_DIR') or os.path.join(VERIF, 'evidence')
     os.makedirs(d, exist_ok=True)
     path = os.path.join(d, prop_id + '.json')
-    tmp = path + '.tmp%d' % os.getpid()
-    with open(tmp, 'w') as f:
-        json.dump(data, f, indent=1, sort_keys=True)
-        f.write('\n')
-    os.replace(tmp, path)
+    # the last run of either tier is <id>.json; a thorough run is also kept as <id>.thorough.json so that a later
+    # quick run does not erase the record of the deepest exploration
+    for target in [path] + ([os.path.join(d, prop_id + '.thorough.json')] if data.get('tier') == 'thorough' else []):
+        tmp = target + '.tmp%d' % os.getpid()
+        with open(tmp, 'w') as f:
+            json.dump(data, f, indent=1, sort_keys=True)
+            f.write('\n')
+        os.replace(tmp, target)
     return path
 
 
